@@ -50,7 +50,13 @@ raising     a function that can raise has result type `Option T`; every exceptio
             division, is accepted only where Python evaluates it unconditionally within its statement
             (not under `and`/`or`/`if-else` operands) - otherwise refused.
 
-small strings  the only string construct: `return "<template>".format(ints...)` / `return f"...{int:spec}..."`.
+small strings  a `str` is the `List Int` of its code points: literals, a `str` parameter, `str(int)`,
+            `"{:0Nd}".format(int)` as a value, `"".join(e for c in s)`, `ord(c)` of an iterated character or a
+            one-character literal, `chr(int)` (ValueError = raise), `len`, `s[k]`, `s[:k]`, `s[k:]`, `+`, `==`/`!=`,
+            and `int(s)` ONLY for strings known to consist of decimal digits and a sign (built from the
+            above decimal constructors) - Python's int() accepts more (spaces, `_`, other digit scripts) and is
+            refused elsewhere.  `try: BODY except X: <expression statements>; raise` is BODY (all exceptions
+            are the one value `none`).  Returned format strings of ints: `return "<template>".format(ints...)` / `return f"...{int:spec}..."`.
             The definition returns the tuple of the integer arguments; the template is data, applied by the
             harness in Python when comparing with the real function's string.
 REFUSED (examples): floats and `/` (so `int(x / y)`, `math.sqrt`, `0.5` are refused, not guessed),
@@ -73,6 +79,7 @@ VERIF = os.path.dirname(os.path.dirname(os.path.abspath(__file__)))
 GEN_PATH = os.path.join(VERIF, "lean", "ArmiVerif", "Gen", "Src.lean")
 
 INT, BOOL, NONE = ("int",), ("bool",), ("none",)
+STR, CHAR = ("str",), ("char",)      # a string = `List Int` of code points; a char = one element of an iterated string
 
 
 def TUP(*ts):
@@ -88,7 +95,7 @@ def OPT(t):
 
 
 T2, T3 = TUP(INT, INT), TUP(INT, INT, INT)
-ANNOT = {"int": INT, "bool": BOOL, "IJType": T2, "IJKType": T3}
+ANNOT = {"int": INT, "bool": BOOL, "IJType": T2, "IJKType": T3, "str": STR}
 MAX_NODES = 6000
 LEAN_RESERVED = {
     "at", "from", "end", "in", "then", "else", "fun", "do", "let", "have", "show", "by", "match", "with", "if",
@@ -97,7 +104,7 @@ LEAN_RESERVED = {
     "Option", "decide", "not", "and", "or", "deriving", "private", "partial", "mutual", "variable", "universe",
     "import", "export", "macro", "syntax", "notation", "infix", "prefix", "postfix", "using", "calc", "this",
     "termination_by", "decreasing_by", "return", "for", "while", "unless", "try", "catch", "finally", "mut",
-    "pyAbs", "pyTake", "pyDrop", "pyIdx", "pySum", "showRaise", "dispatch",
+    "pyAbs", "pyTake", "pyDrop", "pyIdx", "pySum", "pyStr", "pyFmtD", "pyFmtFill", "pyIntOfStr", "pyChr", "showRaise", "dispatch",
 }
 
 
@@ -150,6 +157,8 @@ TARGETS = [
     Target("armi/utils/__init__.py", "getCycleNodeFromCumulativeNode", binds={"getBurnSteps(cs)": ("burnSteps", LIST(INT))}),
     Target("armi/utils/__init__.py", "getCycleNodeFromCumulativeStep", binds={"getBurnSteps(cs)": ("burnSteps", LIST(INT))}),
     Target("armi/utils/__init__.py", "getPreviousTimeNode", binds={"getBurnSteps(cs)": ("burnSteps", LIST(INT))}),
+    Target("armi/nuclearDataIO/cccc/cccc.py", "getBlockBandwidth"),
+    Target("armi/bookkeeping/db/database.py", "getH5GroupName"),
     Target("armi/nucDirectory/nuclideBases.py", "NuclideBase.getMcnpId",
            binds={"self.z": ("z", INT), "self.a": ("a", INT), "self.state": ("state", INT)}),
     Target("armi/nucDirectory/nuclideBases.py", "NuclideBase.getAAAZZZSId",
@@ -167,6 +176,10 @@ def lean_type(t):
         return "Int"
     if k == "bool":
         return "Bool"
+    if k == "str":
+        return "(List Int)"
+    if k == "char":
+        return "Int"
     if k == "tuple":
         return "(" + " × ".join(lean_type(x) for x in t[1]) + ")"
     if k == "list":
@@ -180,7 +193,7 @@ def lean_type(t):
 
 def show_type(t):
     k = t[0]
-    if k in ("int", "bool", "none"):
+    if k in ("int", "bool", "none", "str", "char"):
         return k
     if k == "tuple":
         return "(" + ",".join(show_type(x) for x in t[1]) + ")"
@@ -216,8 +229,9 @@ def unify(a, b):
 class E:
     """translated pure expression. For t == BOOL `s` is a Lean Prop; otherwise a Lean term."""
 
-    def __init__(self, s, t, elts=None, lit=None):
+    def __init__(self, s, t, elts=None, lit=None, dec=False):
         self.s, self.t, self.elts, self.lit = s, t, elts, lit
+        self.dec = dec      # for strings: built only from str(int) / zero-padded decimal formats / digit literals
 
 
 def as_val(e):
@@ -617,6 +631,14 @@ class FnTranslator:
                 return self.node(("ret", E("none", NONE)))
             fm = self.format_return(st.value)
             if fm is not None:
+                try:
+                    saved_state = (list(self.pre), self.nodes)
+                    if not all(self.expr(a_, env).t == INT for a_ in fm[1]):
+                        fm = None
+                except Refuse:
+                    fm = None
+                self.pre = saved_state[0]
+            if fm is not None:
                 template, argnodes = fm
                 if self.strfmt not in (None, template):
                     raise Refuse("returns strings of different formats")
@@ -640,10 +662,16 @@ class FnTranslator:
             self.raises = True
             return self.wrap_pre(pre, self.node(("if", c.s, cont(env), ("raise",))))
         if isinstance(st, ast.If):
-            c, pre = self.with_pre(lambda: self.cond(st.test, env))
-            th = self.block(list(st.body), dict(env), cont)
-            el = self.block(list(st.orelse), dict(env), cont)
-            return self.wrap_pre(pre, self.node(("if", c.s, th, el)))
+            mk_then = lambda: self.block(list(st.body), dict(env), cont)
+            mk_else = lambda: self.block(list(st.orelse), dict(env), cont)
+            try:
+                c, pre = self.with_pre(lambda: self.cond(st.test, env))
+            except Refuse as e:
+                if "conditionally evaluated" not in str(e):
+                    raise
+                # a raising operand under and/or: compile the short-circuit evaluation into nested ifs
+                return self.cond_tree(st.test, env, mk_then, mk_else)
+            return self.wrap_pre(pre, self.node(("if", c.s, mk_then(), mk_else())))
         if isinstance(st, ast.AnnAssign):
             if st.value is None or not isinstance(st.target, ast.Name):
                 raise Refuse("annotated assignment without value / to a non-name")
@@ -659,7 +687,33 @@ class FnTranslator:
             return self.assign([st.target], ast.BinOp(left=load, op=st.op, right=st.value), env, cont)
         if isinstance(st, ast.For):
             return self.for_range(st, env, cont)
+        if isinstance(st, ast.Try):
+            # `try: BODY except X: <expression statements>; raise` = BODY: every exception is the one value `none`,
+            # the handler only adds side effects (logging) and re-raises
+            if st.orelse or st.finalbody or not st.handlers:
+                raise Refuse("`try` with else / finally")
+            for h in st.handlers:
+                if not h.body or not (isinstance(h.body[-1], ast.Raise) and h.body[-1].exc is None) \
+                        or not all(isinstance(x, ast.Expr) for x in h.body[:-1]):
+                    raise Refuse("`except` handler that does not end in a bare `raise` after expression statements only")
+            self.raises = True
+            return self.block(list(st.body) + rest, env, k)
         raise Refuse(f"`{type(st).__name__.lower()}` statement")
+
+    def cond_tree(self, test, env, mk_then, mk_else):
+        """`if a or (b and c): T else: E` with Python's short-circuit order, each leaf condition evaluated (with its
+        guards / raising calls) exactly where Python evaluates it; T / E are duplicated"""
+        if isinstance(test, ast.BoolOp):
+            vals = list(test.values)
+            first, rest = vals[0], vals[1:]
+            rest_node = rest[0] if len(rest) == 1 else ast.BoolOp(op=test.op, values=rest)
+            if isinstance(test.op, ast.Or):
+                return self.cond_tree(first, env, mk_then, lambda: self.cond_tree(rest_node, env, mk_then, mk_else))
+            return self.cond_tree(first, env, lambda: self.cond_tree(rest_node, env, mk_then, mk_else), mk_else)
+        if isinstance(test, ast.UnaryOp) and isinstance(test.op, ast.Not):
+            return self.cond_tree(test.operand, env, mk_else, mk_then)
+        c, pre = self.with_pre(lambda: self.cond(test, env))
+        return self.wrap_pre(pre, self.node(("if", c.s, mk_then(), mk_else())))
 
     def for_range(self, st, env, cont):
         """`for v in range(a[, b]): body` -> an auxiliary definition by structural recursion on the number of
@@ -725,6 +779,9 @@ class FnTranslator:
                 env2[tgt.id] = ("inline", e)
                 return self.wrap_pre(pre, cont(env2))
             env2[tgt.id] = e.t
+            env2.pop("$dec:" + tgt.id, None)
+            if e.t == STR and e.dec:
+                env2["$dec:" + tgt.id] = ("inline", None)
             return self.wrap_pre(pre, self.node(("let", lname(tgt.id), as_val(e), e.t, cont(env2))))
         if isinstance(tgt, (ast.Tuple, ast.List)):
             names = []
@@ -792,6 +849,8 @@ class FnTranslator:
             if type(v) is int:
                 self.literals.add(v)
                 return E(int_lit(v), INT, lit=v)
+            if type(v) is str:
+                return self.str_lit(v)
             raise Refuse(f"{type(v).__name__} literal `{v!r}`"[:80])
         if isinstance(node, ast.Name):
             n = node.id
@@ -799,6 +858,8 @@ class FnTranslator:
                 t = env[n]
                 if t[0] == "inline":
                     return t[1]
+                if t == STR:
+                    return E(lname(n), STR, dec=("$dec:" + n) in env)
                 return E(f"({lname(n)} = true)", BOOL) if t == BOOL else E(lname(n), t)
             if n in self.assigned or n in self.opaque:
                 raise Refuse(f"name `{n}` (possibly unbound local, or an object used other than through a bound attribute)")
@@ -829,6 +890,13 @@ class FnTranslator:
             raise Refuse(f"operator `{type(node.op).__name__}`")
         if isinstance(node, ast.BinOp):
             return self.binop(node, env)
+        if isinstance(node, ast.BoolOp) and isinstance(node.op, ast.Or) and len(node.values) == 2 and not cond:
+            a0 = self.expr(node.values[0], env)
+            if a0.t == STR:
+                saved, self.strict = self.strict, False
+                b0 = self.as_str(self.expr(node.values[1], env))
+                self.strict = saved
+                return E(f"(if {a0.s} ≠ [] then {a0.s} else {b0.s})", STR, dec=a0.dec and b0.dec)
         if isinstance(node, ast.BoolOp):
             sym = "∧" if isinstance(node.op, ast.And) else "∨"
             parts = []
@@ -902,6 +970,70 @@ class FnTranslator:
             raise Refuse(f"attribute access `{ast.unparse(node)}` (not bound to a parameter)")
         raise Refuse(f"`{type(node).__name__}` expression `{ast.unparse(node)[:50]}`")
 
+    # ---- small strings (List Int of code points)
+    def str_lit(self, v):
+        body = ", ".join(int_lit(ord(c)) for c in v)
+        return E(f"([{body}] : List Int)", STR, dec=bool(v) and all(c in "0123456789" for c in v), lit=v)
+
+    def as_str(self, e):
+        if e.t == STR:
+            return e
+        if e.t == CHAR:
+            return E(f"[{e.s}]", STR)
+        raise Refuse(f"a {show_type(e.t)} where a string is expected")
+
+    def fmt_spec(self, spec, val):
+        """one `{:spec}` field applied to an int expression -> decimal string"""
+        import re as _re
+        if val.t in (STR, CHAR):
+            if spec:
+                raise Refuse(f"format spec `{spec}` on a string")
+            return self.as_str(val)
+        mf = _re.fullmatch(r"0>(\d+)", spec or "")
+        if mf:
+            if val.t != INT:
+                raise Refuse("format of a non-int value")
+            return E(f"(pyFmtFill ({int(mf.group(1))} : Nat) {val.s})", STR)
+        m = _re.fullmatch(r"(0?)(\d*)d?", spec or "")
+        if not m or (m.group(2) and not m.group(1)):
+            raise Refuse(f"format spec `{spec}` (only `d`, `0Nd`)")
+        if val.t not in (INT, CHAR):
+            raise Refuse("format of a non-int value")
+        w = int(m.group(2)) if m.group(2) else 0
+        return E(f"(pyFmtD ({w} : Nat) {val.s})", STR, dec=True)
+
+    def str_format(self, node, env):
+        """`"<template>".format(int exprs)` as a string value (zero-padded decimal fields only)"""
+        import string
+        tpl = node.func.value.value
+        kw = {k.arg: k.value for k in node.keywords}
+        parts, auto = [], 0
+        for lit, field, spec, conv in string.Formatter().parse(tpl):
+            if lit:
+                parts.append(self.str_lit(lit))
+            if field is None:
+                continue
+            if conv is not None or "{" in (spec or ""):
+                raise Refuse("format conversion / nested format spec")
+            if field == "":
+                src = node.args[auto] if auto < len(node.args) else None
+                auto += 1
+            elif field.isdigit():
+                src = node.args[int(field)] if int(field) < len(node.args) else None
+            else:
+                src = kw.get(field)
+            if src is None:
+                raise Refuse(f"format field `{field}`")
+            parts.append(self.fmt_spec(spec, self.expr(src, env)))
+        return self.str_concat(parts)
+
+    def str_concat(self, parts):
+        if not parts:
+            return self.str_lit("")
+        if len(parts) == 1:
+            return parts[0]
+        return E("(" + " ++ ".join(p.s for p in parts) + ")", STR, dec=all(p.dec for p in parts))
+
     def binop(self, node, env):
         op = node.op
         if isinstance(op, ast.Div):
@@ -914,6 +1046,8 @@ class FnTranslator:
             self.literals.add(n)
             return E(f"({a.s} ^ ({n} : Nat))", INT)
         b = self.expr(node.right, env)
+        if isinstance(op, ast.Add) and a.t in (STR, CHAR) and b.t in (STR, CHAR):
+            return self.str_concat([self.as_str(a), self.as_str(b)])
         if a.t != INT or b.t != INT:
             raise Refuse(f"arithmetic `{type(op).__name__}` on {show_type(a.t)} and {show_type(b.t)}")
         if isinstance(op, (ast.Add, ast.Sub, ast.Mult)):
@@ -952,9 +1086,11 @@ class FnTranslator:
                 sym = {ast.Lt: "<", ast.LtE: "≤", ast.Gt: ">", ast.GtE: "≥", ast.Eq: "=", ast.NotEq: "≠"}.get(type(op))
                 if sym is None:
                     raise Refuse(f"comparison `{type(op).__name__}`")
-                if left.t != right.t:
+                if left.t in (STR, CHAR) and right.t in (STR, CHAR) and sym in ("=", "≠"):
+                    parts.append(f"({self.as_str(left).s} {sym} {self.as_str(right).s})")
+                elif left.t != right.t:
                     raise Refuse(f"comparison of {show_type(left.t)} with {show_type(right.t)}")
-                if left.t == INT:
+                elif left.t == INT:
                     parts.append(f"({left.s} {sym} {right.s})")
                 elif left.t[0] == "tuple" and sym in ("=", "≠") and all(x == INT for x in left.t[1]):
                     parts.append(f"({as_val(left)} {sym} {as_val(right)})")
@@ -968,7 +1104,10 @@ class FnTranslator:
 
     def subscript(self, node, env):
         base = self.expr(node.value, env)
-        if base.t == LIST(INT):
+        if base.t == CHAR:
+            base = self.as_str(base)
+        if base.t == LIST(INT) or base.t == STR:
+            is_str = base.t == STR
             sl = node.slice
             if isinstance(sl, ast.Slice):
                 if sl.step is not None:
@@ -983,6 +1122,8 @@ class FnTranslator:
                     raise Refuse("list slice other than xs[:k] / xs[k:]")
                 if k.t != INT:
                     raise Refuse("slice bound that is not an int")
+                if is_str:
+                    return E(f"({fn} {base.s} {k.s})", STR, dec=base.dec)
                 return E(f"({fn} {base.s} {k.s})", LIST(INT))
             k = self.expr(sl, env)
             if k.t != INT:
@@ -991,6 +1132,8 @@ class FnTranslator:
                 raise Refuse("list indexing (may raise IndexError) inside a conditionally evaluated operand")
             tn = self.fresh("x")
             self.pre.append(("bind", tn, f"(pyIdx {base.s} {k.s})"))
+            if is_str:
+                return E(f"[{tn}]", STR, dec=base.dec)
             return E(tn, INT)
         if base.t[0] != "tuple":
             raise Refuse(f"subscript of a {show_type(base.t)}")
@@ -1019,6 +1162,50 @@ class FnTranslator:
         f = node.func
         if any(isinstance(a, ast.Starred) for a in node.args) or any(k.arg is None for k in node.keywords):
             raise Refuse("call with * / ** arguments")
+        # strings: "<template>".format(ints) as a value, "".join(<comprehension over a string>)
+        if isinstance(f, ast.Attribute) and isinstance(f.value, ast.Constant) and isinstance(f.value.value, str):
+            if f.attr == "format":
+                if any(isinstance(a, ast.Starred) for a in node.args):
+                    raise Refuse("format with * arguments")
+                return self.str_format(node, env)
+            if f.attr == "join" and f.value.value == "" and len(node.args) == 1 and not node.keywords \
+                    and isinstance(node.args[0], (ast.ListComp, ast.GeneratorExp)):
+                comp = node.args[0]
+                if len(comp.generators) != 1 or comp.generators[0].ifs or not isinstance(comp.generators[0].target, ast.Name):
+                    raise Refuse("join over a comprehension other than `e for c in s`")
+                g = comp.generators[0]
+                xs = self.expr(g.iter, env)
+                if xs.t != STR:
+                    raise Refuse(f"join over a comprehension iterating a {show_type(xs.t)}")
+                saved, self.strict = self.strict, False
+                env2 = dict(env)
+                env2[g.target.id] = CHAR
+                el = self.as_str(self.expr(comp.elt, env2))
+                self.strict = saved
+                return E(f"(List.flatten (List.map (fun ({lname(g.target.id)} : Int) => {el.s}) {xs.s}))", STR, dec=el.dec)
+            raise Refuse(f"string method `{f.attr}`")
+        if isinstance(f, ast.Name) and f.id not in env and f.id not in self.mod.funcs and f.id in ("ord", "chr", "str"):
+            if node.keywords or len(node.args) != 1:
+                raise Refuse(f"`{f.id}` with other than one argument")
+            a = self.expr(node.args[0], env)
+            if f.id == "ord":
+                if a.t == CHAR:
+                    return E(a.s, INT)
+                if a.t == STR and isinstance(a.lit, str) and len(a.lit) == 1:
+                    self.literals.add(ord(a.lit))
+                    return E(int_lit(ord(a.lit)), INT, lit=ord(a.lit))
+                raise Refuse("`ord` of something that is not a single character")
+            if f.id == "str":
+                if a.t != INT:
+                    raise Refuse("`str` of a non-int")
+                return E(f"(pyStr {a.s})", STR, dec=True)
+            if a.t != INT:
+                raise Refuse("`chr` of a non-int")
+            if not self.strict:
+                raise Refuse("`chr` (may raise) inside a conditionally evaluated operand")
+            tn = self.fresh("c")
+            self.pre.append(("bind", tn, f"(pyChr {a.s})"))
+            return E(tn, STR)
         # builtins
         if isinstance(f, ast.Name) and f.id not in env and f.id not in self.mod.funcs and f.id in (
                 "abs", "min", "max", "int", "bool", "divmod", "len", "sum"):
@@ -1034,6 +1221,17 @@ class FnTranslator:
                 return E(s, INT)
             if f.id == "int" and len(args) == 1 and args[0].t == INT:
                 return args[0]
+            if f.id == "int" and len(args) == 1 and args[0].t == STR:
+                if not args[0].dec:
+                    raise Refuse("`int` of a string that is not known to consist of decimal digits / a sign "
+                                 "(Python's int() also accepts spaces, underscores and other digit scripts)")
+                if not self.strict:
+                    raise Refuse("`int(str)` (may raise) inside a conditionally evaluated operand")
+                tn = self.fresh("n")
+                self.pre.append(("bind", tn, f"(pyIntOfStr {args[0].s})"))
+                return E(tn, INT)
+            if f.id == "len" and len(args) == 1 and args[0].t == STR:
+                return E(f"(Int.ofNat (List.length {args[0].s}))", INT)
             if f.id == "bool" and len(args) == 1 and args[0].t in (INT, BOOL):
                 return self.truthy(args[0])
             if f.id == "len" and len(args) == 1 and args[0].t[0] == "tuple":
@@ -1215,7 +1413,7 @@ def strip_doc(body):
 def flat_slots(t):
     if t in (INT, BOOL):
         return 1
-    if t == LIST(INT):
+    if t == LIST(INT) or t == STR:
         return 1
     if t[0] == "tuple" and all(x in (INT, BOOL) for x in t[1]):
         return len(t[1])
@@ -1264,7 +1462,7 @@ def render_module(results, repo_label="$ARMI_REPO"):
         try:
             n, args, pats = 0, [], []
             for _, t in r["params"]:
-                if t == LIST(INT):
+                if t == LIST(INT) or t == STR:
                     pats.append(f"l{n}")
                     args.append(f"l{n}")
                     n += 1
